@@ -730,6 +730,21 @@ func (fr *Frame) checkCallPre(in ssa.Instruction, callee *ssa.Function, sp *Func
 			// spawned: the call is the operand of a go statement (its effects are not awaited)
 			_, isGo := in.(*ssa.Go)
 			cenv.vars["spawned"] = Val{T: tBool, S: fmt.Sprint(isGo)}
+			cenv.callName = name
+			usesMark := false
+			for _, c := range cls {
+				if strings.Contains(c.Src, "sincelastcall(") {
+					usesMark = true
+				}
+			}
+			if usesMark {
+				defer func(key string, pc string) {
+					// after the clauses of this call: the allocation bound becomes the "previous call" mark
+					e.keySort[key] = sRef
+					cur := e.heapGet(fr.st, key, sRef)
+					e.heapSet(fr.st, key, sRef, mkIte(pc, fr.st.alloc, cur))
+				}("X:lastcallalloc:"+name, fr.pc)
+			}
 			for i, c := range cls {
 				t, err := cenv.evalBool(c.E)
 				if err != nil {
